@@ -33,6 +33,7 @@ def run(ctx, progs):
     ctx.rule("PS1", "a store to `size` dominates every call of drop_range")
     ctx.rule("PS2", "no Drop(L) reachable on the unwind edge of drop_in_place/ptr::read into local L")
     ctx.rule("DROPPER1", "every guard aggregate dominates every drop of a guard")
+    ctx.rule("DESTROY1", "drop_range reaches a return without dropping its Droppers only over the `range.is_empty()` edge")
     ctx.rule("DRN1", "Drain::drop: droppers -> restore -> return, no destructor after the restore")
     ctx.rule("DTOR-TABLE", "functions with a direct destructor site == reviewed table")
     ctx.assumptions.append("INV1 (C04): stores to size/start have the reviewed shapes")
@@ -40,6 +41,7 @@ def run(ctx, progs):
         ps1(ctx, prog, cfg)
         ps2(ctx, prog, cfg)
         dropper1(ctx, prog, cfg)
+        destroy1(ctx, prog, cfg)
         drn1_de(ctx, prog, cfg)
         dtor_table(ctx, prog, cfg)
 
@@ -256,3 +258,32 @@ def dtor_table(ctx, prog, cfg):
 
 def table_applies(short, prog):
     return short in prog.fns
+
+
+def destroy1(ctx, prog, cfg, rule="DESTROY1"):
+    """The destroying primitive destroys: every normal path through drop_range to a return passes
+    the drops of both Droppers, except over the edge on which `range.is_empty()` holds (an early
+    return keyed on anything else — element size, needs_drop, capacity — leaks the range)."""
+    for prim in DESTROY_PRIMITIVES:
+        f = ctx.need_fn(prog, prim, rule)
+        if f is None:
+            continue
+        gads = guard_adts(prog)
+        dblocks = [b for b in f.reachable(False) if f.term(b)["k"] == "drop" and not f.is_cleanup(b) and any(g in f.term(b)["ty"] for g in gads)]
+        empties = []
+        for b in sorted(f.reachable(False)):
+            t = f.term(b)
+            if t["k"] != "switch" or f._switch_const(t, b) is not None:
+                continue
+            n = len(f.blocks[b]["stmts"])
+            d = mir.strip_casts(f.operand_expr(t["discr"], b, n))
+            if isinstance(d, tuple) and d[0] == "call" and d[1] == "Range::is_empty":
+                # the edge on which the result is true
+                for (s, kind, label) in f.succ_edges(b):
+                    if kind == "normal" and label and ((label[0] == "otherwise" and label[1] == [0]) or (label[0] == "val" and label[1] == 1)):
+                        empties.append(s)
+        ok = len(dblocks) >= 2 and f.must_pass(None, dblocks[:1] + empties, set(f.return_blocks())) and f.must_pass(None, dblocks[1:2] + empties, set(f.return_blocks()))
+        ctx.check(ok, rule, prim, "returns only after destroying (or for an empty range)", f.loc,
+                  "`%s` can return without dropping its element guards on a path that does not establish `range.is_empty()`: the "
+                  "elements of the range are removed from the buffer but never destroyed (leak)" % prim,
+                  "every return passes both Dropper drops (bb%s) or the empty-range edge (bb%s)" % (dblocks, empties), cfg)
